@@ -253,6 +253,9 @@ def run(rep, facts, tier):
     # R03.14 the request onto the wire (mutation round 4: the writer-side twin, a deleted send_to_locator, survived everything)
     from rules import builtsent
     builtsent.run_reader_wire(rep, fx, 'R03.14')
+    # a sample skipped as complete-but-unusable is acknowledged: the assembler's answer decides it (after seed C03g)
+    from rdv import report as _report
+    _report.borrow(rep, facts, tier, 'C05', {'R05.18': 'R03.15'})
     from rules import numberset as _ns
     _ns.rule_from_base_and_set(rep, fx, 'R03.10')
 
